@@ -173,6 +173,22 @@ def variants(rng, cfg, sh):
             if 'j' in nss:
                 out.append(({'op': 'eltorito', 'boot': f.path('i'), 'kw': {'joliet_bootcatfile': '/' + 'j' * 70}}, 'eltorito/ns2/illegal-bootcat'))
             break
+    if rr:
+        # a new link whose ISO9660 name is free but whose Rock Ridge name already exists in the target directory
+        for f in files:
+            if 'i' in f.names and f.rr:
+                sibs = [c for c in f.parent.children if c is not f and c.rr and 'i' in c.names]
+                clash = (sibs[0].rr if sibs else f.rr)
+                pp = f.parent.path('i') if f.parent.parent is not None else ''
+                if pp is not None:
+                    out.append(({'op': 'addlink', 'ons': 'i', 'old': f.path('i'), 'nns': 'i', 'new': pp + '/ZZL%d.;1' % rng.randrange(1000), 'rr': clash},
+                                'addlink/duplicate-rr-name'))
+                break
+    if 'u' in nss:
+        out.append(({'op': 'addsym', 'udf': '/zzsym%d' % rng.randrange(10 ** 6), 'utarget': 'a/' + 'x' * 300}, 'addsym/udf-target-component-too-long'))
+        if rr:
+            out.append(({'op': 'addsym', 'iso': '/ZZS%d.;1' % rng.randrange(1000), 'rr': 'zzs%d' % rng.randrange(10 ** 6), 'target': 'ok',
+                         'udf': '/zzsym%d' % rng.randrange(10 ** 6), 'utarget': 'a/' + 'x' * 300}, 'addsym/ns3/udf-target-component-too-long'))
     out.append(({'op': 'addlink', 'ons': 'i', 'old': '/NOSUCH.;1', 'nns': 'i', 'new': '/ZZL.;1', 'rr': 'zzl' if rr else None}, 'addlink/nonexistent-old'))
     out.append(({'op': 'eltorito', 'boot': '/NOSUCH.;1', 'kw': {}}, 'eltorito/nonexistent-boot'))
     out.append(({'op': 'hide', 'ns': 'i', 'path': '/NOSUCH.;1'}, 'hide/nonexistent'))
@@ -260,8 +276,19 @@ def run_history(ctx, rng, cfg, nops):
             res = s.apply(op)
         if res == 'ok':
             s.record(op, res)
-            n = len(s.ops)
             other = rng.choice(files_i).path('i')
+            if rng.random() < 0.5:
+                # a catalog that already has a section: the refused call then goes through add_section with a predecessor
+                op2 = {'op': 'eltorito', 'boot': other, 'kw': {'efi': True}}
+                with isoapi.frozen_time():
+                    res2 = s.apply(op2)
+                if res2 == 'ok':
+                    s.record(op2, res2)
+                else:
+                    ops = list(s.ops)
+                    s.close()
+                    s = histcheck.replay_session(cfg, ops, tempfile.gettempdir())
+            n = len(s.ops)
             for v, cause in (
                     ({'op': 'eltorito', 'boot': other, 'kw': {'media_name': 'bogus'}}, 'eltorito2/bad-media'),
                     ({'op': 'eltorito', 'boot': other, 'kw': {'platform_id': 9}}, 'eltorito2/bad-platform'),
@@ -270,6 +297,8 @@ def run_history(ctx, rng, cfg, nops):
                     ({'op': 'eltorito', 'boot': '/NOSUCH.;1', 'kw': {'boot_info_table': True}}, 'eltorito2/nonexistent-boot'),
                     ({'op': 'isohybrid', 'kw': {}}, 'isohybrid/not-isolinux'),
                     ({'op': 'isohybrid', 'kw': {'part_entry': 9}}, 'isohybrid/bad-part-entry'),
+                    ({'op': 'isohybrid', 'kw': {'geometry_heads': 300}}, 'isohybrid/bad-geometry'),
+                    ({'op': 'isohybrid', 'kw': {'geometry_sectors': 64}}, 'isohybrid/bad-geometry-sectors'),
                     ({'op': 'rmfile', 'ns': 'i', 'path': boot}, 'rmfile/boot-file'),
                     ({'op': 'rmisohybrid'}, 'rmisohybrid/none')):
                 if rng.random() < 0.5:
